@@ -45,6 +45,12 @@ type LinearState struct {
 	// state's read lock) fill.
 	cacheMu sync.Mutex
 
+	// expiredIds holds the ids of facts that a reader found expired.
+	// A reader holds the read lock only, so it can't remove them;
+	// purgeExpired does that under the write lock.
+	expiredIds []string
+	expiredMu  sync.Mutex
+
 	store Storage
 
 	addHook AddHookFn
@@ -188,6 +194,7 @@ func (s *LinearState) Add(ctx *Context, id string, x Map) (string, error) {
 
 	// Storage and memory change under one lock, so that concurrent
 	// changes to an id reach both in the same order.
+	defer s.purgeExpired(ctx)
 	s.slock(ctx, false)
 	defer s.sunlock(ctx, false)
 	s.uncacheRule(id)
@@ -235,6 +242,7 @@ func (s *LinearState) Rem(ctx *Context, id string) (bool, error) {
 	Log(DEBUG, ctx, "LinearState.Rem", "id", id)
 	timer := NewTimer(ctx, "LinearState.Rem")
 	defer timer.Stop()
+	defer s.purgeExpired(ctx)
 
 	if s.remHook != nil {
 		if err := s.remHook(ctx, s, id); err != nil {
@@ -328,12 +336,13 @@ func (s *LinearState) search(ctx *Context, pattern Map, lock bool) (*SearchResul
 	srs := SearchResults{}
 	srs.Found = make([]SearchResult, 0, 0)
 	if lock {
+		defer s.purgeExpired(ctx)
 		s.slock(ctx, true)
 		defer s.sunlock(ctx, true)
 	}
 	for id, rf := range s.Facts {
 		srs.Checked++
-		expired, err := s.expire(ctx, id, rf.M, now)
+		expired, err := s.noteExpired(ctx, id, rf.M, now)
 		if err != nil {
 			return nil, err
 		}
@@ -388,6 +397,7 @@ func (s *LinearState) FindRules(ctx *Context, event Map) (map[string]Map, error)
 func (s *LinearState) doFindRules(ctx *Context, event Map) (map[string]Map, error) {
 	// We could call Search(), but we'll try to be a bit
 	// more efficient here.
+	defer s.purgeExpired(ctx)
 	s.slock(ctx, true)
 	defer s.sunlock(ctx, true)
 	return s.findRules(ctx, event)
@@ -416,7 +426,7 @@ func (s *LinearState) findRules(ctx *Context, event Map) (map[string]Map, error)
 		if !given {
 			continue
 		}
-		expired, err := s.expire(ctx, id, rf.M, now)
+		expired, err := s.noteExpired(ctx, id, rf.M, now)
 		if err != nil {
 			Log(ERROR, ctx, "LinearState.FindRules", "error", err, "when", "expiring")
 			return nil, err
@@ -482,6 +492,7 @@ func (s *LinearState) FindCachedRules(ctx *Context, event Map) (map[string]*Rule
 	// writer, which needs the write lock to change a rule and to
 	// drop its cache entry, therefore can't slip in between our
 	// reading a rule and our caching it.
+	defer s.purgeExpired(ctx)
 	s.slock(ctx, true)
 	defer s.sunlock(ctx, true)
 
@@ -568,6 +579,11 @@ func (s *LinearState) get(ctx *Context, id string, getLock bool) (Map, error) {
 		s.slock(ctx, true)
 	}
 	rf, found := s.Facts[id]
+	var expired bool
+	var err error
+	if found {
+		expired, err = s.noteExpired(ctx, id, rf.M, 0)
+	}
 	if getLock {
 		s.sunlock(ctx, true)
 	}
@@ -575,13 +591,15 @@ func (s *LinearState) get(ctx *Context, id string, getLock bool) (Map, error) {
 	if !found {
 		return nil, NewNotFoundError("%s", id)
 	}
-	expired, err := s.expire(ctx, id, rf.M, 0)
 	if err != nil {
 		Log(ERROR, ctx, "LinearState.Get", "error", err, "when", "expiring")
 		return nil, err
 	}
 	if expired {
 		Log(ERROR, ctx, "LinearState.Get", "expired", expired, "id", id)
+		if getLock {
+			s.purgeExpired(ctx)
+		}
 		return nil, NewNotFoundError("%s", id)
 	}
 	maybeInjectId(ctx, id, rf.M, false)
@@ -592,6 +610,44 @@ func (s *LinearState) get(ctx *Context, id string, getLock bool) (Map, error) {
 //
 // This method is mostly generic and could be dissociated from
 // IndexedState.
+// noteExpired reports whether the fact has expired.  If so, the id is
+// remembered for purgeExpired.  Touches nothing else, so this is what
+// readers (who only hold the read lock) use.
+func (s *LinearState) noteExpired(ctx *Context, id string, fact map[string]interface{}, now int64) (bool, error) {
+	expired, err := checkExpiration(ctx, fact, now)
+	if err != nil {
+		return false, err
+	}
+	if expired {
+		s.expiredMu.Lock()
+		s.expiredIds = append(s.expiredIds, id)
+		s.expiredMu.Unlock()
+	}
+	return expired, nil
+}
+
+// purgeExpired removes the facts that readers found expired.  Gets
+// the write lock, so the caller must not hold a lock.
+func (s *LinearState) purgeExpired(ctx *Context) {
+	s.expiredMu.Lock()
+	ids := s.expiredIds
+	s.expiredIds = nil
+	s.expiredMu.Unlock()
+	if len(ids) == 0 {
+		return
+	}
+	s.slock(ctx, false)
+	defer s.sunlock(ctx, false)
+	for _, id := range ids {
+		if rf, have := s.Facts[id]; have {
+			if _, err := s.expire(ctx, id, rf.M, 0); err != nil {
+				Log(ERROR, ctx, "LinearState.purgeExpired", "name", s.Name, "id", id, "error", err)
+			}
+		}
+	}
+}
+
+// expire removes the fact if it has expired.  Assumes the write lock.
 func (s *LinearState) expire(ctx *Context, id string, fact map[string]interface{}, now int64) (bool, error) {
 	// Same code for LinearState.  ToDo: Generalize.
 	expired, err := checkExpiration(ctx, fact, now)
